@@ -54,3 +54,30 @@ def xkeyDecode (H : Bytes → Bytes) (s : List Nat) : Except Err Wire.XKey :=
     | .ok k => .ok k
 
 end Btc.KeyText
+
+namespace Btc.KeyText
+open Btc Gen.Net
+
+/-- `network.XPRV_VERSIONS_ALL` / `XPUB_VERSIONS_ALL`: every private / public version of every network. -/
+def XPRV_ALL : List (List Nat) := NETWORKS.flatMap (·.xprv)
+def XPUB_ALL : List (List Nat) := NETWORKS.flatMap (·.xpub)
+
+/-- `BIP32KeyData.assert_valid` after the field sizes: `_assert_valid_depth_and_index` (a root has no parent
+    fingerprint and no index) and `_assert_valid_key` (the version says private or public; a private key is
+    0x00 ‖ q with 0 < q < n, a public key 0x02/0x03 ‖ x with x an x-coordinate of the curve; an unknown version is
+    refused). `n` and the x-coordinate predicate are parameters. -/
+def xkeySemValid (n : Nat) (isX : Nat → Bool) (k : Wire.XKey) : Bool :=
+  (k.depth != 0 || (k.parentFp == [0, 0, 0, 0] && k.index == 0)) &&
+  (if XPRV_ALL.contains (Address.toNats k.version) then
+     k.key.head? == some 0 && (decide (0 < ofBE (k.key.drop 1)) && decide (ofBE (k.key.drop 1) < n))
+   else if XPUB_ALL.contains (Address.toNats k.version) then
+     (k.key.head? == some 2 || k.key.head? == some 3) && isX (ofBE (k.key.drop 1))
+   else false)
+
+/-- `BIP32KeyData.b58decode` (validity checked). -/
+def xkeyDecodeChecked (H : Bytes → Bytes) (n : Nat) (isX : Nat → Bool) (s : List Nat) : Except Err Wire.XKey :=
+  match xkeyDecode H s with
+  | .error e => .error e
+  | .ok k => if xkeySemValid n isX k then .ok k else .error .xkey
+
+end Btc.KeyText
